@@ -5,7 +5,6 @@ From V Require Import Base.Int Base.IntLemmas Base.IO Gen.TimeDelta Model.TimeDe
 Import ListNotations.
 Open Scope Z_scope.
 Ltac Zify.zify_post_hook ::= Z.to_euclidean_division_equations.
-Set Default Timeout 60.
 
 (** representation invariant of NaiveTime, leap representation allowed on any second *)
 Definition tvalid (t : ntime) : Prop := 0 <= tsecs t < 86400 /\ 0 <= tfrac t < 2000000000.
